@@ -11,7 +11,13 @@ sys.path.insert(0, os.path.dirname(os.path.abspath(__file__)))
 import extract  # noqa: E402
 
 VERIF = extract.VERIF
-GEN = os.path.join(VERIF, "gen")
+GEN = os.path.join(VERIF, "gen", "run-%d" % os.getpid()) if not os.environ.get("VERIF_GEN_FLAT") else os.path.join(VERIF, "gen")
+
+
+def cleanup_gen():
+    import shutil
+    if not os.environ.get("VERIF_KEEP_GEN") and GEN != os.path.join(VERIF, "gen"):
+        shutil.rmtree(GEN, ignore_errors=True)
 
 VIOLATION_MSGS = (
     "postcondition not satisfied", "precondition not satisfied", "assertion failed",
@@ -63,7 +69,7 @@ def fn_at(spans, line):
     return name
 
 
-def run_unit(unit, rlimit=None, seed=None, threads=4, timeout=900):
+def run_unit(unit, rlimit=None, seed=None, threads=4, timeout=900, spinoff=False):
     """Returns dict(status: ok|violation|undecided, ...)"""
     t0 = time.time()
     gen_path = os.path.join(GEN, unit + ".rs")
@@ -87,6 +93,8 @@ def run_unit(unit, rlimit=None, seed=None, threads=4, timeout=900):
         cmd += ["--rlimit", str(rlimit)]
     if seed is not None:
         cmd += ["--smt-option", "smt.random_seed=%d" % seed]
+    if spinoff:
+        cmd += ["-V", "spinoff-all"]
     res["cmd"] = " ".join(cmd)
     try:
         p = subprocess.run(cmd, cwd=GEN, capture_output=True, text=True, timeout=timeout)
@@ -177,12 +185,14 @@ def classify(res):
 
 
 def run_unit_stable(unit, threads=4, seed=None):
-    """Run once; on rlimit-type undecided, retry once with 4x rlimit."""
+    """Run once in the shared solver context (fast path).  A failure there is re-checked with every function in its own
+    solver instance (-V spinoff-all): after one failed query the shared Z3 process was observed to fail the *next*
+    function too, so only the isolated run names obligations.  rlimit-type results are retried once with 4x rlimit."""
     r = classify(run_unit(unit, threads=threads, seed=seed))
-    if r["status"] == "undecided" and r.get("undecided_errors"):
-        r2 = classify(run_unit(unit, rlimit=40, threads=threads, seed=seed))
-        r2["retried_with_rlimit"] = 40
-        r2["first_attempt"] = {"reason": r.get("reason")}
+    if r["status"] == "violation" or (r["status"] == "undecided" and r.get("undecided_errors")):
+        r2 = classify(run_unit(unit, rlimit=40 if r["status"] == "undecided" else None, threads=max(threads, 8), seed=seed, spinoff=True))
+        r2["first_attempt"] = {"status": r["status"], "failed": [f.get("fn") for f in r.get("failed", [])], "reason": r.get("reason")}
+        r2["wall_s"] = r2.get("wall_s", 0) + r.get("wall_s", 0)
         return r2
     return r
 
